@@ -8,7 +8,13 @@
    positive size allowed, 1 included) is universally quantified and does not occur in the result:
    the bytes returned are the data, the source is left at the end of the stream.  Zero-length
    reads are covered by the *_zero_read theorems (state unchanged, so they can be inserted anywhere
-   in a history).  For LZMAReader / LZMA2Reader the streams are those the writer models produce
+   in a history).  XZReader: C07_xz_reader_any_sizes is about the call-by-call model xzr_read (the
+   one the correspondence check drives); C07_xz_reader_matches_whole_file turns the run-checked
+   agreement between that model and the whole-file function xz_decode_c (the function of the C02 /
+   C12 / C16 theorems) into a theorem, for the files the writer produces with LZMA2 payloads and
+   Delta pre-filters or none.  NOT proved: the same for files with BCJ filters (outside the
+   executable reader model), for several concatenated streams read call by call, for damaged files,
+   and for the LZIP call-by-call model lzr_read (only its zero-length read).  For LZMAReader / LZMA2Reader the streams are those the writer models produce
    (for arbitrary, e.g. damaged, input the readers' results may well depend on the buffer sizes
    through the point at which an error is detected - that is C06 / C04's subject). *)
 From LzVerif Require Import Base.Bytes Codec.Store Codec.Range Codec.LzWindow Codec.LzmaDec Codec.LzmaEnc
@@ -16,7 +22,8 @@ From LzVerif Require Import Base.Bytes Codec.Store Codec.Range Codec.LzWindow Co
   Codec.Lzma1LoopProofs Codec.Lzma1ReadProofs
   Codec.Lzma2Dec Codec.Lzma2SpecProofs Codec.Lzma2FrameSyncProofs Codec.Lzma2ReadProofs
   Filter.Delta Filter.DeltaProofs Filter.Bcj Filter.BcjStream Filter.BcjStreamProofs Filter.BcjAllProofs
-  Format.XzFormat Format.LzipFormat Format.ContainerRefutations Format.XzReaderProofs.
+  Format.XzFormat Format.LzipFormat Format.XzProofs Format.ContainerRefutations Format.ComposeProofs
+  Format.ComposeExamplesProofs Format.XzReaderProofs.
 
 (* ---- zero-length reads ------------------------------------------------------------------------- *)
 Theorem C07_lzma1_zero_read : forall s buflen, buflen <= 0 -> lzma1_read s buflen = Ok ([], s).
@@ -94,3 +101,57 @@ Theorem C07_delta_reader_any_chunking : forall d parts,
   delta_read_calls d parts = delta_decode d (concat parts).
 Proof. exact delta_read_partition. Qed.
 Print Assumptions C07_delta_reader_any_chunking.
+
+(* XZReader::read, call by call, on a file the writer produced (LZMA2 payloads of any encoder [ch],
+   Delta pre-filters or none, any check type / block size / partition into write() calls), under
+   EVERY history of positive destination sizes: the bytes written, then end of stream, and the
+   source is left exactly behind the stream footer ([rest] arbitrary with single-stream decoding;
+   nothing may follow when multi-stream decoding is on). *)
+Theorem C07_xz_reader_any_sizes :
+  forall lc lp pb ch, l2_params_ok lc lp pb -> l2_codec_ok lc lp pb ch ->
+  forall o0 parts f rest multi sizes, stream_ok o0 -> only_delta (xo_filters o0) ->
+    4096 <= xo_dict o0 <= 2147483648 -> bytes_ok (concat parts) = true ->
+    xz_encode (l2_penc lc lp pb ch) delta_fenc xz_fixed o0 parts = Ok f ->
+    (multi = true -> rest = []) -> Forall (fun z => 0 < z) sizes ->
+    forall fuel, (length (concat parts) + 2 <= fuel)%nat ->
+    exists st, xzr_read_all fuel xz_fixed (xzr_new (f ++ rest) multi) sizes sizes [] = Ok (concat parts, 0, st) /\
+               xzr_unconsumed st = rest.
+Proof. exact xzr_read_all_rt. Qed.
+Print Assumptions C07_xz_reader_any_sizes.
+
+(* the call-by-call model returns what the whole-file function xz_decode_c returns *)
+Theorem C07_xz_reader_matches_whole_file :
+  forall lc lp pb ch, l2_params_ok lc lp pb -> l2_codec_ok lc lp pb ch ->
+  forall o0 parts f multi sizes, stream_ok o0 -> only_delta (xo_filters o0) ->
+    4096 <= xo_dict o0 <= 2147483648 -> bytes_ok (concat parts) = true ->
+    xz_encode (l2_penc lc lp pb ch) delta_fenc xz_fixed o0 parts = Ok f ->
+    Forall (fun z => 0 < z) sizes ->
+    forall fuel, (length (concat parts) + 2 <= fuel)%nat ->
+    exists content left st,
+      xz_decode_c xz_fixed multi f = Ok (content, left) /\
+      xzr_read_all fuel xz_fixed (xzr_new f multi) sizes sizes [] = Ok (content, 0, st) /\
+      xzr_unconsumed st = left.
+Proof. exact xzr_read_all_is_decode. Qed.
+Print Assumptions C07_xz_reader_matches_whole_file.
+
+(* non-vacuity: the hypotheses on concrete options and data (Format/ComposeExamplesProofs.v), and
+   the history 3, 1, 3, 1, ... evaluated on the two-block file with two Delta filters *)
+Example C07_xz_reader_hyps :
+  l2_params_ok 3 0 2 /\ l2_codec_ok 3 0 2 ch_ex /\
+  stream_ok x_opts /\ only_delta (xo_filters x_opts) /\ 4096 <= xo_dict x_opts <= 2147483648 /\
+  bytes_ok (concat x_parts) = true /\
+  exists f, xz_encode (l2_penc 3 0 2 ch_ex) delta_fenc xz_fixed x_opts x_parts = Ok f.
+Proof.
+  split; [exact params_302|]. split; [exact ch_ex_ok|].
+  destruct x_opts_ok as (H1 & H2 & H3 & H4). destruct x_roundtrip as (f & Hf & _).
+  split; [exact H1|]. split; [exact H2|]. split; [exact H3|]. split; [exact H4|]. exists f. exact Hf.
+Qed.
+Example C07_xz_reader_instance :
+  match xz_encode (l2_penc 3 0 2 ch_ex) delta_fenc xz_fixed x_opts x_parts with
+  | Ok f => match xzr_read_all 20 xz_fixed (xzr_new (f ++ [9; 9]) false) [3; 1] [3; 1] [] with
+            | Ok (out, st, s) => out = x_data /\ st = 0 /\ xzr_unconsumed s = [9; 9]
+            | _ => False
+            end
+  | _ => False
+  end.
+Proof. vm_compute. repeat split; reflexivity. Qed.
